@@ -14,6 +14,10 @@ RULES = {
     "C15.3": "decrements: call sites are in read_next (delta = constant 1, guarded by checkpoint, and every consuming path that returns Some(entry) passes exactly such a site) and in "
              "batch_read_for_topic (guarded by checkpoint and start_offset.is_none(); delta = the per-iteration counter that is initialised to 0 and only ever incremented by 1, "
              "the increment dominating the cursor-position update of that iteration); inside the helpers delta is applied with saturating arithmetic to the entry of the given topic",
+    "C15.4": "recount after restart uses the whole persisted position (must-depend, backward slices through calls and closure captures): in the recovery recount every index into the "
+             "per-block tables and the chain (`take(n)`, `get(n)` with n: usize) and the block handed to the partial-block counter data-depends on the block component of the persisted "
+             "position (BlockPos.cur_block_idx), and the partial-block limit depends on BlockPos.cur_block_offset. A recount that ignores a component of the position is wrong for every "
+             "history in which that component differs from the value it assumes (e.g. a tail position that is no longer the last block of the chain)"
 }
 
 WRITERS = {"walrus::Walrus::increment_topic_entry_count", "walrus::Walrus::decrement_topic_entry_count", "walrus::Walrus::rebuild_topic_entry_counts_after_recovery"}
@@ -318,6 +322,70 @@ def check_decrements(ctx, facts):
     ctx.floor("C15.3", "decrement sites in read_next", n_rn, 2)
 
 
+def check_recount(ctx, facts):
+    from .core.slicing import origins
+    b = facts.body("walrus::Walrus::rebuild_topic_entry_counts_after_recovery")
+    ctx.saw_body(b)
+    F = common.short_fn(b.name)
+
+    tests = [T for T in all_tests(b) if T.kind in ("cmp", "local", "discr", "call")]
+
+    def t_edges(T):
+        es = [e for e in (T.true_edge, T.false_edge) if e]
+        es += [e for e in getattr(T, "variant_edges", {}).values() if e]
+        return es
+
+    def t_operands(T):
+        if T.kind == "cmp":
+            return [T.a, T.b]
+        if T.kind == "local":
+            return [T.operand]
+        if T.kind == "call":
+            return list(T.args)
+        return []
+
+    def fields(op, use_bb, depth=0):
+        """BlockPos fields the operand depends on: data slice (through calls and closure
+        captures) plus control dependences of its definitions that are not shared with the use."""
+        src, _, defsites = origins(b, op, follow_all_calls=True)
+        out = {o.what[1] for o in src if o.kind == "field" and isinstance(o.what, tuple) and str(o.what[0]).endswith("index::BlockPos")}
+        if depth >= 2:
+            return out
+        for T in tests:
+            es = t_edges(T)
+            if any(b.edge_guards(e, use_bb) for e in es):
+                continue   # governs the use as well: says nothing about this value
+            if any(b.edge_guards(e, d.bb) for e in es for d in defsites):
+                for o in t_operands(T):
+                    out |= fields(o, T.bb, depth + 1)
+        return out
+    n_idx = n_part = 0
+    for c in b.calls(re.compile(r"Iterator>?::take$|::take$|::get$")):
+        if len(c.node["args"]) < 2:
+            continue
+        a = c.node["args"][1]
+        l = op_local(a)
+        if a.get("k") == "const" or l is None or b.local_ty(l) != "usize":
+            continue
+        n_idx += 1
+        if "cur_block_idx" in fields(a, c.bb):
+            ctx.ok("C15.4", F, "table/chain index depends on the persisted block component", b.relfile, c.line)
+        else:
+            ctx.violate("C15.4", F, "recount-index-ignores-persisted-block", b.relfile, c.line,
+                        "an index used to sum the consumed entries does not depend on the block component of the persisted position: the recount is wrong whenever the persisted "
+                        "block is not the one this code assumes")
+    for c in b.calls(re.compile(r"count_entries_in_block_up_to$")):
+        n_part += 1
+        fb, fl = fields(c.node["args"][0], c.bb), fields(c.node["args"][1], c.bb)
+        if "cur_block_idx" in fb and "cur_block_offset" in fl:
+            ctx.ok("C15.4", F, "partial-block count is taken in the persisted block up to the persisted offset", b.relfile, c.line)
+        else:
+            ctx.violate("C15.4", F, "recount-partial-ignores-persisted-position", b.relfile, c.line,
+                        "the partial-block count does not depend on the persisted (block, offset) pair (block: %s, limit: %s)" % (sorted(fb), sorted(fl)))
+    ctx.floor("C15.4", "position-derived indices in the recount", n_idx, 6)
+    ctx.floor("C15.4", "partial-block counts in the recount", n_part, 2)
+
+
 def run(ctx):
     for k, v in RULES.items():
         ctx.rule(k, v)
@@ -325,7 +393,8 @@ def run(ctx):
     check_writers(ctx, facts)
     check_increments(ctx, facts)
     check_decrements(ctx, facts)
-    ctx.assume("the recount after restart (positional cursor arithmetic in rebuild_topic_entry_counts_after_recovery) is NOT decided")
+    check_recount(ctx, facts)
+    ctx.assume("the arithmetic of the recount after restart (rebuild_topic_entry_counts_after_recovery) is NOT decided beyond C15.4's must-depend clause")
     ctx.assume("that the batch counter equals the number of entries *returned* is C01.1's obligation (known finding there), not repeated here")
     return {
         "explanation": "who-may-write table for the count map, and for every increment/decrement call site: edge dominance by the success edge of the writer call / by the checkpoint and "
